@@ -7,7 +7,7 @@ import ValidaProofs.Lemmas.Basic
 import ValidaProofs.Lemmas.C02Tree
 import ValidaProofs.Lemmas.C05Rule
 namespace ValidaProofs.C06R
-open Valida ValidaGen Valida.Report
+open Valida ValidaGen Valida.Report ValidaGen.ReportFmt
 open ValidaProofs.C05L
 
 /-! ### occurrences -/
@@ -79,14 +79,26 @@ theorem filterAux_shape {α : Type} (f : α → RArg) (c : Cond α) :
         cases h
         exact ⟨rfl, iha _ _ _ _ _ ha, ihb _ _ _ _ _ hb⟩
 
-theorem length_namedReasonsAt {κ : Leaf Arg → String} (idx : Nat) (c : Cond Arg) :
+/-- the guard facts about the generated skip rows (proved in C06Report as `C06_report_skip_rows`) -/
+def SkipRows : Prop :=
+  skipped BinOp.and.symbol = true ∧ skipped BinOp.or.symbol = true ∧ skipped BinOp.xor.symbol = false
+
+theorem SkipRows.not_skipped (h : SkipRows) (op : BinOp) : (!skipped op.symbol) = (op == .xor) := by
+  obtain ⟨h1, h2, h3⟩ := h
+  cases op
+  · rw [h1]; rfl
+  · rw [h2]; rfl
+  · rw [h3]; rfl
+
+theorem length_namedReasonsAt {κ : Leaf Arg → String} (hκ : ∀ l, skipped (κ l) = false) (hskip : SkipRows)
+    (idx : Nat) (c : Cond Arg) :
     ∀ fd : FD, Shape c fd → (namedReasonsAt κ idx c fd).length = (fd.reasonsAt idx).length := by
   induction c with
   | leaf l =>
     intro fd hs
     cases fd with
     | leaf cls fn flags =>
-      simp only [namedReasonsAt, FD.reasonsAt]
+      simp only [namedReasonsAt, FD.reasonsAt, hκ l, Bool.false_eq_true, if_false]
       cases flags[idx]? <;> simp
     | bin op fa fb => exact absurd hs (by simp [Shape])
   | bin op a b iha ihb =>
@@ -95,7 +107,8 @@ theorem length_namedReasonsAt {κ : Leaf Arg → String} (idx : Nat) (c : Cond A
     | leaf cls fn flags => exact absurd hs (by simp [Shape])
     | bin op' fa fb =>
       obtain ⟨_, ha, hb⟩ := hs
-      simp only [namedReasonsAt, FD.reasonsAt, List.length_append, iha fa ha, ihb fb hb]
+      simp only [namedReasonsAt, FD.reasonsAt, List.length_append, iha fa ha, ihb fb hb,
+        hskip.not_skipped op']
       split <;> simp
 
 /-! ### what a returned rule test records -/
@@ -237,10 +250,13 @@ theorem validate_tested (rs : List RuleM) (doc : PyVal) (v : Validated) (h : val
 
 /-! ### the reason texts -/
 
-theorem reasonTextsOf_spec (κ : Leaf Arg → String) (r : RuleM) (t : RuleTestR) (h : Tested r t) :
+/-- the reason texts exist (whatever `κ`): one list per failure, read off a filter outcome of the
+    shape of the rule's condition in which the failure's item is false -/
+theorem reasonTextsOf_ok (κ : Leaf Arg → String) (r : RuleM) (t : RuleTestR) (h : Tested r t) :
     ∃ texts, reasonTextsOf κ r t = .ok texts ∧ texts.length = t.failures.length ∧
       ∀ (i : Nat) (f : Failure) (x : List String), t.failures[i]? = some f → texts[i]? = some x →
-        x.length = f.reasons.length ∧ x ≠ [] := by
+        ∃ fd, Shape r.cond fd ∧ x = namedReasonsAt κ f.index r.cond fd ∧
+          f.reasons = fd.reasonsAt f.index ∧ fd.result[f.index]? = some false := by
   obtain ⟨doc, h⟩ := h
   obtain ⟨hdata, _, hcase⟩ := ruleTestOn_spec r doc t h
   rcases hcase with hnil | ⟨sub, d, fd, d', ps, hsel, hd, hf, hall⟩
@@ -261,13 +277,23 @@ theorem reasonTextsOf_spec (κ : Leaf Arg → String) (r : RuleM) (t : RuleTestR
         simp only [List.getElem?_map, hfi, Option.map_some, Option.some.injEq] at hx
         subst hx
         obtain ⟨hr, hres⟩ := hall f (List.mem_of_getElem? hfi)
-        have hlen := length_namedReasonsAt (κ := κ) f.index r.cond fd
-          (filterAux_shape (resolveArg (some doc)) r.cond d true fd d' ps hf)
-        refine ⟨by rw [hlen, hr], ?_⟩
-        intro hx
-        have hne := reasonsAt_ne_nil fd f.index hres
-        rw [hx] at hlen
-        exact hne (List.length_eq_zero_iff.1 hlen.symm)
+        exact ⟨fd, filterAux_shape (resolveArg (some doc)) r.cond d true fd d' ps hf, rfl, hr, hres⟩
+
+theorem reasonTextsOf_spec (κ : Leaf Arg → String) (hκ : ∀ l, skipped (κ l) = false) (hskip : SkipRows)
+    (r : RuleM) (t : RuleTestR) (h : Tested r t) :
+    ∃ texts, reasonTextsOf κ r t = .ok texts ∧ texts.length = t.failures.length ∧
+      ∀ (i : Nat) (f : Failure) (x : List String), t.failures[i]? = some f → texts[i]? = some x →
+        x.length = f.reasons.length ∧ x ≠ [] := by
+  obtain ⟨texts, hok, hlen, hall⟩ := reasonTextsOf_ok κ r t h
+  refine ⟨texts, hok, hlen, ?_⟩
+  intro i f x hfi hx
+  obtain ⟨fd, hshape, rfl, hr, hres⟩ := hall i f x hfi hx
+  have hl := length_namedReasonsAt hκ hskip f.index r.cond fd hshape
+  refine ⟨by rw [hl, hr], ?_⟩
+  intro hx
+  have hne := reasonsAt_ne_nil fd f.index hres
+  rw [hx] at hl
+  exact hne (List.length_eq_zero_iff.1 hl.symm)
 
 theorem allTexts_spec (κ : Leaf Arg → String) (rs : List RuleM) (ts : List RuleTestR)
     (h : All2 Tested rs ts) :
@@ -276,7 +302,7 @@ theorem allTexts_spec (κ : Leaf Arg → String) (rs : List RuleM) (ts : List Ru
   induction h with
   | nil => exact ⟨[], rfl, .nil⟩
   | cons hrt _ ih =>
-    obtain ⟨x, hx, hlen, _⟩ := reasonTextsOf_spec κ _ _ hrt
+    obtain ⟨x, hx, hlen, _⟩ := reasonTextsOf_ok κ _ _ hrt
     obtain ⟨xs, hxs, hall⟩ := ih
     exact ⟨x :: xs, by simp [allTexts, hx, hxs, bind, Except.bind, pure, Except.pure], .cons hlen hall⟩
 
@@ -295,7 +321,7 @@ theorem report_eq (ρ : PyVal → String) (κ : Leaf Arg → String) (rs : List 
 
 theorem failureText_block (ρ : PyVal → String) (f : Failure) (reasons : List String) :
     Occurs (failureText ρ f reasons)
-      ("Path: " ++ ρ f.path ++ "\nValue: " ++ ρ f.value ++ "\nReasons:\n") :=
+      (failPathPrefix ++ ρ f.path ++ failValuePrefix ++ ρ f.value ++ failReasonsHeader) :=
   Occurs.pre _ _
 
 theorem ruleReport_failure (ρ : PyVal → String) (t : RuleTestR) (texts : List (List String))
@@ -313,7 +339,7 @@ theorem ruleReport_failure (ρ : PyVal → String) (t : RuleTestR) (texts : List
 
 theorem section_head (ρ : PyVal → String) (idx : Nat) (t : RuleTestR) (texts : List (List String))
     (hinv : t.isValid = false) :
-    Occurs (section_ ρ idx t texts) ("Rule #" ++ toString idx ++ "\n") := by
+    Occurs (section_ ρ idx t texts) (sectionPrefix ++ toString idx ++ sectionTitleEnd) := by
   simp only [section_, hinv, Bool.false_eq_true, if_false]
   exact (((Occurs.pre _ _).before _).before _).before _
 
@@ -349,16 +375,18 @@ theorem sections_mem (ρ : PyVal → String) :
 theorem reportWith_invalid (ρ : PyVal → String) (v : Validated) (n : Nat) (texts : List (List (List String)))
     (hv : v.isValid = false) :
     reportWith ρ v n texts =
-      toString v.numFailures ++ " rule" ++ (if v.numFailures > 1 then "s" else "") ++
-        " failed validation. " ++ toString v.numRulesTested ++ "/" ++ toString n ++ " rules were tested.\n\n" ++
+      repOutInit ++ toString v.numFailures ++ headerRule ++
+        (if v.numFailures > 1 then headerPlural else headerSingular) ++ headerFailed ++
+        toString v.numRulesTested ++ testedSep ++ toString n ++ testedSuffix ++ headerSuffix ++
         String.join (sections ρ 1 v.tests texts) := by
-  simp [reportWith, hv, testedMsg, String.append_assoc]
+  simp only [reportWith, hv, testedMsg, String.append_assoc, Bool.false_eq_true, if_false]
 
 theorem reportWith_valid (ρ : PyVal → String) (v : Validated) (n : Nat) (texts : List (List (List String)))
     (hv : v.isValid = true) :
     reportWith ρ v n texts =
-      "Data is valid. " ++ toString v.numRulesTested ++ "/" ++ toString n ++ " rules were tested.\n" := by
-  simp [reportWith, hv, testedMsg, String.append_assoc]
+      repOutInit ++ validPrefix ++ toString v.numRulesTested ++ testedSep ++ toString n ++ testedSuffix ++
+        validSuffix := by
+  simp only [reportWith, hv, testedMsg, String.append_assoc, if_true]
 
 theorem invalid_of_test (v : Validated) (t : RuleTestR) (ht : t ∈ v.tests) (hinv : t.isValid = false) :
     v.isValid = false := by
